@@ -50,8 +50,12 @@ def gen_names(rng, n, nul):
         r = rng.random()
         if r < 0.35 and names:
             nm = rng.choice(sorted(names)) + rng.choice(ALPHA)
-        elif r < 0.6:
+        elif r < 0.55:
             nm = rng.choice(base)
+        elif r < 0.63:
+            # a literal harvested from the code under test, spliced into a usual name
+            from .gitobj_common import splice_token
+            nm = splice_token(rng, rng.choice(base), "bytes")
         else:
             nm = b"".join(rng.choice(ALPHA) for _ in range(rng.randrange(1, 6)))
         if nul and rng.random() < 0.3:
@@ -98,6 +102,21 @@ def gen(rng, tier):
         if tier == "quick" and (rng.random() < 0.75 or n > 13):
             cases[-1]["wide"] = False
     cases += corner_cases(rng, tier)
+    # deterministic sweep over the literals harvested from the code under test (see c04): branch names and alias targets
+    from .gitobj_common import source_tokens
+    toks = source_tokens("bytes")
+    for i in range(0, len(toks), 5):
+        grp = toks[i:i + 5]
+        b = []
+        for j, t in enumerate(grp):
+            b.append([(t + b"x").hex(), "revision", (bytes([(i + j) % 251 + 1]) * 20).hex()])
+            b.append([(b"refs/heads/" + t).hex(), "alias", (t + b"x").hex()])
+            b.append([t.hex(), "alias", (t + b"-missing").hex()])
+        seen, b2 = set(), []
+        for e in b:
+            if e[0] not in seen:
+                seen.add(e[0]); b2.append(e)
+        cases.append({"branches": b2, "perm": list(reversed(range(len(b2)))), "ignore": i % 2 == 0, "wide": False})
     if tier == "thorough":
         names = [b"a", b"ab", b"a/", b"b"]
         tgts = [None] + [(k, (bytes([i + 1]) * 20).hex()) for i, k in enumerate(KINDS[:5])] + \
